@@ -256,7 +256,10 @@ def check_names_exported(ctx, tag):
         if not k or not (isinstance(assigned[k[0]], ast.Name) and assigned[k[0]].id == md.params[1]):
             ctx.bad(tag, md, md.node, f"_make_dtype does not set {attr} to the given name", construct=f"_make_dtype: {attr}")
     mods = [a.value for a in walk_scope(md.node) if isinstance(a, ast.Assign) for t in a.targets if norm(t).endswith(".__module__")]
-    if not any(isinstance(v, ast.Constant) and v.value == "jaxtyping" for v in mods):
+    def _can_be_jaxtyping(v):
+        return (isinstance(v, ast.Constant) and v.value == "jaxtyping") or (isinstance(v, ast.IfExp) and (_can_be_jaxtyping(v.body) or _can_be_jaxtyping(v.orelse)))
+
+    if not any(_can_be_jaxtyping(v) for v in mods):
         ctx.bad(tag, md, md.node, "_make_dtype does not set __module__ to 'jaxtyping'", construct="_make_dtype: __module__")
     else:
         ctx.ok(tag, md.qualname, "sets __name__, __qualname__ and __module__='jaxtyping': categories pickle by reference")
@@ -429,34 +432,82 @@ def check_comparison(ctx):
 
 # ------------------------------------------------------------------------ C03.4
 def check_init_subclass(ctx):
+    """Normalisation of a user category's `dtypes`, walked on the CFG for the abstract classes
+    {str, re.Pattern, other iterable, any-dtype sentinel}: str/Pattern -> 1-tuple, other -> tuple(..),
+    sentinel -> left alone; the result is stored back on the class."""
+    from ..absim import eval_bool, simulate
+    from ..typestate import NoReturn
+
     m = ctx.model
     c = m.cls("_array_types.AbstractDtype")
     f = need(c.methods.get("__init_subclass__"), "AbstractDtype.__init_subclass__ not found")
     ctx.saw(f)
-    ifs = [st for st in f.body if isinstance(st, ast.If)]
-    need(len(ifs) == 1, "__init_subclass__: expected one if/elif")
-    st = ifs[0]
-    t = st.test
-    ok1 = (isinstance(t, ast.Call) and norm(t.func) == "isinstance" and isinstance(t.args[1], ast.Tuple)
-           and {norm(e) for e in t.args[1].elts} == {"str", "re.Pattern"})
-    v1 = [a.value for a in st.body if isinstance(a, ast.Assign)]
-    ok1 = ok1 and len(v1) == 1 and isinstance(v1[0], ast.Tuple) and len(v1[0].elts) == 1 and norm(v1[0].elts[0]) == norm(t.args[0])
-    if ok1:
-        ctx.ok("C03.4", f.qualname, "str / re.Pattern -> 1-tuple (not iterated character by character)")
+    g = NoReturn(m).cfg(f)
+    recv = f.params[0]
+    # the variable(s) holding the declared dtypes: anything assigned from `<recv>.dtypes`
+    src = set()
+    for a in walk_scope(f.node):
+        if isinstance(a, ast.Assign) and norm(a.value) == f"{recv}.dtypes":
+            src |= {norm(t) for t in a.targets}
+        if isinstance(a, ast.AnnAssign) and a.value is not None and norm(a.value) == f"{recv}.dtypes":
+            src.add(norm(a.target))
+    need(src, "C03.4: __init_subclass__ does not read the declared `dtypes`")
+
+    def stop(n):
+        return n.kind in ("return", "raise", "exit", "exit_e", "exit_b", "falloff")
+
+    def event_of(n):
+        a = n.ast
+        if n.kind == "stmt" and isinstance(a, ast.Assign):
+            return "set:" + "|".join(norm(t) for t in a.targets) + "=" + norm(a.value)
+        if n.kind == "stmt" and isinstance(a, ast.AnnAssign) and a.value is not None:
+            return "set:" + norm(a.target) + "=" + norm(a.value)
+        return None
+
+    bad = []
+    for cls_ in ("str", "pattern", "other", "sentinel"):
+        def atom(e, cls_=cls_):
+            t = norm(e)
+            if isinstance(e, ast.Call) and norm(e.func) == "isinstance" and norm(e.args[0]) in src:
+                names = {norm(x) for x in (e.args[1].elts if isinstance(e.args[1], ast.Tuple) else [e.args[1]])}
+                return (cls_ == "str" and "str" in names) or (cls_ == "pattern" and "re.Pattern" in names)
+            if isinstance(e, ast.Compare) and len(e.ops) == 1 and isinstance(e.ops[0], (ast.Is, ast.IsNot)) and norm(e.left) in src and norm(e.comparators[0]) == "_any_dtype":
+                v = cls_ == "sentinel"
+                return v if isinstance(e.ops[0], ast.Is) else not v
+            raise AnalysisError(f"C03.4: unrecognised condition `{t}` in __init_subclass__")
+        outs = simulate(g, g.entry, stop, lambda n: eval_bool(n.ast, atom), None, event_of)
+        for o in outs:
+            env = {}
+            stored = None
+            for ev in o.events:
+                lhs, rhs = ev[4:].split("=", 1)
+                for tg in lhs.split("|"):
+                    if tg == f"{recv}.dtypes":
+                        stored = env.get(rhs, rhs)
+                    else:
+                        # substitute known locals once (value of the local at this point)
+                        env[tg] = env.get(rhs, rhs) if rhs in env else rhs
+            def shape(v):
+                for s_ in src:
+                    if v == f"({s_},)":
+                        return "1-tuple"
+                    if v == f"tuple({s_})":
+                        return "tuple"
+                    if v == s_ or v == f"{recv}.dtypes":
+                        return "same"
+                return v
+            got = shape(stored) if stored is not None else "not stored"
+            # resolve one more level: the stored name may alias the source through `x = src`
+            want = {"str": "1-tuple", "pattern": "1-tuple", "other": "tuple", "sentinel": "same"}[cls_]
+            if got != want:
+                bad.append((cls_, got, want))
+    if bad:
+        for cls_, got, want in bad:
+            what = {"str": "a single string", "pattern": "a single compiled regex", "other": "a list/tuple of specifiers", "sentinel": "the any-dtype sentinel"}[cls_]
+            ctx.bad("C03.4", f, f.node, f"user category declared with {what}: `dtypes` ends up as `{got}` (expected {want}"
+                    + ("; a string would be iterated character by character)" if cls_ == "str" else ")"), construct=f"__init_subclass__: {cls_} -> {got}")
     else:
-        ctx.bad("C03.4", f, st, "a single string / regex `dtypes` of a user category is not wrapped into a 1-tuple: a string would be iterated character by character")
-    el = st.orelse
-    ok2 = False
-    if len(el) == 1 and isinstance(el[0], ast.If) and "is not _any_dtype" in norm(el[0].test):
-        v2 = [a.value for a in el[0].body if isinstance(a, ast.Assign)]
-        ok2 = len(v2) == 1 and isinstance(v2[0], ast.Call) and norm(v2[0].func) == "tuple" and not el[0].orelse
-    if ok2:
-        ctx.ok("C03.4", f.qualname, "other iterables -> tuple; the any-dtype sentinel is left alone")
-    else:
-        ctx.bad("C03.4", f, st, "user `dtypes` are not normalised to a tuple with the any-dtype sentinel left alone")
-    last = f.body[-1]
-    if not (isinstance(last, ast.Assign) and norm(last.targets[0]).endswith(".dtypes")):
-        ctx.bad("C03.4", f, last, "the normalised dtypes are not stored back on the class")
+        ctx.ok("C03.4", f.qualname, "str / re.Pattern -> 1-tuple; other iterables -> tuple(...); the any-dtype sentinel is left alone; stored back on the class")
 
 
 # -------------------------------------------------------- extraction (shape only)
